@@ -70,9 +70,15 @@ def create_task(coro: Callable[[], Awaitable[Any]], loop: Optional[asyncio.Abstr
     future = loop.create_future()
 
     async def run_task() -> None:
-        with kiwipy.capture_exceptions(future):
-            res = await coro()
-            future.set_result(res)
+        try:
+            with kiwipy.capture_exceptions(future):
+                res = await coro()
+                future.set_result(res)
+        except asyncio.CancelledError:
+            # The computation was cancelled (CancelledError is not an Exception, so it is not captured above): the future
+            # that stands for its outcome must not stay pending for ever
+            future.cancel()
+            raise
 
     asyncio.run_coroutine_threadsafe(run_task(), loop)
     return future
